@@ -32,7 +32,8 @@ TRIG = {('sin', 'cc'): 'sin_c', ('cos', 'cc'): 'cos_c', ('sin', 'bb'): 'sin_b', 
 class ExprTr:
     """expression translator; fvars: names of field variables, nvars: names of nat variables"""
 
-    def __init__(self, fvars, nvars, alias=None, zexp=False):
+    def __init__(self, fvars, nvars, alias=None, zexp=False, atoms=None):
+        self.atoms = atoms or {}   # source text of opaque sub-expressions -> field variable
         self.fvars = set(fvars)
         self.nvars = set(nvars)
         self.alias = alias or {}
@@ -64,6 +65,9 @@ class ExprTr:
         fail(e, 'unsupported integer expression')
 
     def fld(self, e):
+        if ast.unparse(e) in self.atoms:
+            self.used.add(self.atoms[ast.unparse(e)])
+            return self.atoms[ast.unparse(e)]
         if isinstance(e, ast.Constant) and isinstance(e.value, int):
             v = e.value
             if v == 0:
@@ -311,6 +315,67 @@ class DFTTable:
             fail(b[0], 'unit impulse branch changed')
         t = ExprTr(['const', 'q'], ['nn0'])
         self.entries['dft_delta_q'] = (['(const q : K)', '(nn0 : nat)'], t.fld(rqs[0].value), rqs[0].lineno)
+        # --- sinusoid branches: which exponential half goes to which bin -------------
+        allifs = [n_ for n_ in ast.walk(fn) if isinstance(n_, ast.If)]
+        self.tones = {}
+
+        def sign_of_exp(call, var):
+            """`rq.subs(q, q * sym.exp(sym.I * var))` -> True, with -sym.I -> False"""
+            txt = ast.unparse(call)
+            for sg, pat in ((True, 'q * sym.exp(sym.I * %s)' % var), (False, 'q * sym.exp(-sym.I * %s)' % var)):
+                if txt.endswith('.subs(q, %s)' % pat):
+                    return sg
+            fail(call, 'unexpected substitution of q')
+
+        ATOMS = {'sym.exp(sym.I * cc)': 'E', 'sym.exp(-sym.I * cc)': 'Ei', 'sym.I': 'J'}
+        for nm in ('sin', 'cos'):
+            br = [n_ for n_ in allifs if ast.unparse(n_.test) == "is_multiplied_with(expr, n, '%s(n)', xn_fac)" % nm]
+            if len(br) != 1:
+                fail(fn, '%s branch of termXq not found' % nm)
+            body = br[0].body
+            txt = [ast.unparse(s_) for s_ in body]
+            need = ['bb = ref[0].coeff(n, 1)', 'cc = ref[0].coeff(n, 0)', 'result = self.termXq(expr, n, k, q, lower, upper)',
+                    'rq1 = deepcopy(result)', 'rq2 = deepcopy(result)', 'k0 = bb * self.N / 2 / pi', 'rq1.add(rq2)', 'return rq1']
+            for t_ in need:
+                if txt.count(t_) != 1:
+                    fail(body[0], '%s branch: expected exactly one `%s`' % (nm, t_))
+            subs_ = [s_ for s_ in body if isinstance(s_, ast.Expr) and '.subs(q,' in ast.unparse(s_)]
+            if len(subs_) != 2 or not ast.unparse(subs_[0]).startswith('rq1.') or not ast.unparse(subs_[1]).startswith('rq2.'):
+                fail(body[0], '%s branch: substitutions of q changed' % nm)
+            s1, s2 = sign_of_exp(subs_[0], 'bb'), sign_of_exp(subs_[1], 'bb')
+            ifs_ = [s_ for s_ in body if isinstance(s_, ast.If)]
+            ifs_ = [s_ for s_ in ifs_ if ast.unparse(s_.test) == 'k0.is_integer and result.has_special']
+            if len(ifs_) != 1 or [ast.unparse(x) for x in ifs_[0].orelse] != ['rq1.rm_cases()', 'rq2.rm_cases()']:
+                fail(body[0], '%s branch: special-case handling changed' % nm)
+            sh = [ast.unparse(x) for x in ifs_[0].body]
+            SH = {'rq1.shift_k(k0)': (1, True), 'rq1.shift_k(-k0)': (1, False), 'rq2.shift_k(k0)': (2, True), 'rq2.shift_k(-k0)': (2, False)}
+            if len(sh) != 2 or any(x not in SH for x in sh) or sorted(SH[x][0] for x in sh) != [1, 2]:
+                fail(ifs_[0], '%s branch: shift_k calls changed' % nm)
+            t = dict((SH[x][0], SH[x][1]) for x in sh)
+            muls = [s_ for s_ in body if isinstance(s_, ast.Expr) and '.multiply(' in ast.unparse(s_)]
+            if len(muls) != 2 or not ast.unparse(muls[0]).startswith('rq1.multiply(') or not ast.unparse(muls[1]).startswith('rq2.multiply('):
+                fail(body[0], '%s branch: multiply calls changed' % nm)
+            for j, m_ in enumerate(muls, 1):
+                tr_ = ExprTr(['const'], [], atoms=ATOMS)
+                self.entries['dft_%s_c%d' % (nm, j)] = (['(const E Ei J : K)'], tr_.fld(m_.value.args[0]), m_.lineno)
+            self.tones[nm] = {'s1': s1, 's2': s2, 't1': t[1], 't2': t[2], 'line': ifs_[0].lineno}
+        # complex exponential exp(j (a n + b)) with |.| = 1
+        br = [n_ for n_ in allifs if ast.unparse(n_.test) ==
+              "is_multiplied_with(expr, n, 'exp(n)', xn_fac) and abs(xn_fac[-1] / sym.exp(args[0].coeff(n, 0))) == 1"]
+        if len(br) != 1:
+            fail(fn, 'complex exponential branch of termXq not found')
+        body = br[0].body
+        txt = [ast.unparse(s_) for s_ in body]
+        for t_ in ['aa = sym.expand(ref[0]).coeff(n, 1) / sym.I', 'bb = sym.expand(ref[0]).coeff(n, 0)',
+                   'result = self.termXq(expr, n, k, q, lower, upper)', 'result.subs(q, q * sym.exp(sym.I * aa))',
+                   'k0 = aa * self.N / 2 / pi', 'result.multiply(const * sym.exp(bb))', 'return result']:
+            if txt.count(t_) != 1:
+                fail(body[0], 'complex exponential branch: expected exactly one `%s`' % t_)
+        ifs_ = [s_ for s_ in body if isinstance(s_, ast.If) and ast.unparse(s_.test) == 'k0.is_integer and result.has_special']
+        if len(ifs_) != 1 or [ast.unparse(x) for x in ifs_[0].orelse] != ['result.rm_cases()'] or len(ifs_[0].body) != 1 \
+                or ast.unparse(ifs_[0].body[0]) not in ('result.shift_k(k0)', 'result.shift_k(-k0)'):
+            fail(body[0], 'complex exponential branch: special-case handling changed')
+        self.tones['cexp'] = {'s1': True, 't1': ast.unparse(ifs_[0].body[0]) == 'result.shift_k(k0)', 'line': ifs_[0].lineno}
         # the call that fixes lower = 0, upper = N - 1 and q = exp(-j 2 pi k / N)
         term = find_class_method(tree, 'DFTTransformer', 'term')
         calls = [ast.unparse(s) for s in ast.walk(term) if isinstance(s, ast.Assign) and ast.unparse(s.targets[0]) == 'res']
@@ -330,6 +395,13 @@ class DFTTable:
         out.append('End DFTTableGen.')
         for nm in self.entries:
             out.append('Arguments %s {K}.' % nm)
+        # which exponential half (True: exp(+j b n)) each copy carries and to which bin (True: +k0) its special case is shifted
+        B = lambda v: 'true' if v else 'false'
+        for nm, d in self.tones.items():
+            out.append('(* dft.py line %d *)' % d['line'])
+            for key in ('s1', 's2', 't1', 't2'):
+                if key in d:
+                    out.append('Definition dft_%s_%s : bool := %s.' % (nm, key, B(d[key])))
         return '\n'.join(out) + '\n'
 
 
